@@ -460,4 +460,123 @@ theorem commute_succeeds_replace (S : Schema) (d da db : Node) (f1 t1 f2 t2 : Na
     simp [Schema.apply, Schema.fromReplace, Schema.replace, c1, Except.map]
   · simp [Schema.apply, Schema.fromReplace, Schema.replace, c2, Except.map]
 
+/-! Non-vacuity of `commute_succeeds_replace`: in `doc(p("ab"), p("c"))` one user types `x` at 2 (inside the
+    first paragraph) and another types `y` at 5 (inside the second); the guard holds, the rebased steps are
+    "insert `y` at 6" and "insert `x` at 2", and both orders give `doc(p("axb"), p("yc"))`. -/
+section Example
+private def tinyS : Schema :=
+  { nodes := #[
+      { name := "doc", isText := false, isInline := false, isLeaf := false, isAtom := false,
+        inlineContent := false, isolating := false, defining := false, code := false,
+        dfa := #[⟨true, [(1, 0)]⟩], markSet := some [], attrs := [] },
+      { name := "para", isText := false, isInline := false, isLeaf := false, isAtom := false,
+        inlineContent := true, isolating := false, defining := false, code := false,
+        dfa := #[⟨true, [(2, 0)]⟩], markSet := none, attrs := [] },
+      { name := "text", isText := true, isInline := true, isLeaf := true, isAtom := true,
+        inlineContent := false, isolating := false, defining := false, code := false,
+        dfa := #[⟨true, []⟩], markSet := some [], attrs := [] }],
+    marks := #[], top := 0, textTy := 2 }
+
+private def par (s : List Nat) : Node := .elem 1 [] [] [.text s []]
+private def c0 : Node := .elem 0 [] [] [par [97, 98], par [99]]
+private def ca : Node := .elem 0 [] [] [par [97, 120, 98], par [99]]
+private def cb : Node := .elem 0 [] [] [par [97, 98], par [121, 99]]
+private def cab : Node := .elem 0 [] [] [par [97, 120, 98], par [121, 99]]
+
+private theorem stepA : tinyS.apply (.replace 2 2 ⟨[.text [120] []], 0, 0⟩ false) c0 = .ok ca := by
+  have hv : tinyS.validContent 1 [Node.text [97, 120, 98] []] = true := by decide
+  simp [Schema.apply, Schema.fromReplace, Schema.replace, c0, ca, par, replaceKids, inRange,
+    depthAt, Slice.wf, spineL, spineR, outer, atLevel, fcut, fcutLoop, cutText, splitOk, isHigh, isLow,
+    fappend, addNode, Except.map, hv]
+
+private theorem stepB : tinyS.apply (.replace 5 5 ⟨[.text [121] []], 0, 0⟩ false) c0 = .ok cb := by
+  have hv : tinyS.validContent 1 [Node.text [121, 99] []] = true := by decide
+  simp [Schema.apply, Schema.fromReplace, Schema.replace, c0, cb, par, replaceKids, inRange,
+    depthAt, Slice.wf, spineL, spineR, outer, atLevel, fcut, fappend, addNode, Except.map, hv]
+
+example : ∃ dab, tinyS.apply (.replace 6 6 ⟨[.text [121] []], 0, 0⟩ false) ca = .ok dab ∧
+    tinyS.apply (.replace 2 2 ⟨[.text [120] []], 0, 0⟩ false) cb = .ok dab := by
+  obtain ⟨a', b', dab, hb', ha', h1, h2⟩ := commute_succeeds_replace tinyS c0 ca cb 2 2 5 5
+    ⟨[.text [120] []], 0, 0⟩ ⟨[.text [121] []], 0, 0⟩ false false
+    (by simp [c0, par, Node.kids, fnorm, fnormKids, Node.norm, chainOk, adjOk])
+    (by simp [fnorm, fnormKids, Node.norm, chainOk]) (by omega) stepA stepB
+    (by simp [c0, par, Node.kids, insideLeft, depthAt])
+  have e1 : (Step.replace 5 5 ⟨[.text [121] []], 0, 0⟩ false).map
+      (Step.replace 2 2 ⟨[.text [120] []], 0, 0⟩ false).getMap
+      = some (.replace 6 6 ⟨[.text [121] []], 0, 0⟩ false) := by
+    have := (rebase_separated_after 2 2 5 5 ⟨[.text [120] []], 0, 0⟩ ⟨[.text [121] []], 0, 0⟩ false false
+      (by omega) (by omega) (by omega) (by simp [Slice.size])).1
+    simpa [Slice.size] using this
+  have e2 : (Step.replace 2 2 ⟨[.text [120] []], 0, 0⟩ false).map
+      (Step.replace 5 5 ⟨[.text [121] []], 0, 0⟩ false).getMap
+      = some (.replace 2 2 ⟨[.text [120] []], 0, 0⟩ false) :=
+    (rebase_separated_after 2 2 5 5 ⟨[.text [120] []], 0, 0⟩ ⟨[.text [121] []], 0, 0⟩ false false
+      (by omega) (by omega) (by omega) (by simp [Slice.size])).2
+  rw [e1] at hb'; rw [e2] at ha'
+  simp only [Option.some.injEq] at hb' ha'
+  subst hb'; subst ha'
+  exact ⟨dab, h1, h2⟩
+end Example
+
+/-! The guard cannot be dropped: a parent with a bounded count.  `doc "para{1,3}"`, `doc(p("a"), p("b"))`:
+    "insert `p("x")` at 0" and "insert `p("y")` at 6" both apply (three paragraphs), their ranges are
+    separated by all six tokens, both rebased steps are kept — and each fails on the other's result (four
+    paragraphs).  The real code behaves the same (checked with a schema built from this expression). -/
+section NeedsGuard
+private def cntS : Schema :=
+  { nodes := #[
+      { name := "doc", isText := false, isInline := false, isLeaf := false, isAtom := false,
+        inlineContent := false, isolating := false, defining := false, code := false,
+        dfa := #[⟨false, [(1, 1)]⟩, ⟨true, [(1, 2)]⟩, ⟨true, [(1, 3)]⟩, ⟨true, []⟩], markSet := some [],
+        attrs := [] },
+      { name := "para", isText := false, isInline := false, isLeaf := false, isAtom := false,
+        inlineContent := true, isolating := false, defining := false, code := false,
+        dfa := #[⟨true, [(2, 0)]⟩], markSet := none, attrs := [] },
+      { name := "text", isText := true, isInline := true, isLeaf := true, isAtom := true,
+        inlineContent := false, isolating := false, defining := false, code := false,
+        dfa := #[⟨true, []⟩], markSet := some [], attrs := [] }],
+    marks := #[], top := 0, textTy := 2 }
+
+private def q (c : Nat) : Node := .elem 1 [] [] [.text [c] []]
+private def n0 : Node := .elem 0 [] [] [q 97, q 98]
+private def na : Node := .elem 0 [] [] [q 120, q 97, q 98]
+private def nb : Node := .elem 0 [] [] [q 97, q 98, q 121]
+
+/-- both steps apply to the valid base document, neither rebased step is dropped, both orders fail —
+    and the guard is false -/
+theorem commute_needs_guard :
+    cntS.checkNode n0 = true ∧
+    cntS.apply (.replace 0 0 ⟨[q 120], 0, 0⟩ false) n0 = .ok na ∧
+    cntS.apply (.replace 6 6 ⟨[q 121], 0, 0⟩ false) n0 = .ok nb ∧
+    (Step.replace 6 6 ⟨[q 121], 0, 0⟩ false).map (Step.replace 0 0 ⟨[q 120], 0, 0⟩ false).getMap
+      = some (.replace 9 9 ⟨[q 121], 0, 0⟩ false) ∧
+    (Step.replace 0 0 ⟨[q 120], 0, 0⟩ false).map (Step.replace 6 6 ⟨[q 121], 0, 0⟩ false).getMap
+      = some (.replace 0 0 ⟨[q 120], 0, 0⟩ false) ∧
+    cntS.apply (.replace 9 9 ⟨[q 121], 0, 0⟩ false) na = .error .failed ∧
+    cntS.apply (.replace 0 0 ⟨[q 120], 0, 0⟩ false) nb = .error .failed ∧
+    insideLeft n0.kids 0 0 (depthAt n0.kids 0 - 0) 6 6 (depthAt n0.kids 6 - 0) = false := by
+  have v3a : cntS.validContent 0 [q 120, q 97, q 98] = true := by decide
+  have v3b : cntS.validContent 0 [q 97, q 98, q 121] = true := by decide
+  have v4a : cntS.validContent 0 [q 120, q 97, q 98, q 121] = false := by decide
+  have r := rebase_separated_after 0 0 6 6 ⟨[q 120], 0, 0⟩ ⟨[q 121], 0, 0⟩ false false
+    (by omega) (by omega) (by omega) (by simp [Slice.size, q])
+  refine ⟨?_, ?_, ?_, ?_, r.2, ?_, ?_, ?_⟩
+  · simp [n0, q, Schema.checkNode, Schema.checkKids]; decide
+  · simp [Schema.apply, Schema.fromReplace, Schema.replace, n0, na, q, replaceKids, inRange,
+      Slice.wf, spineL, spineR, outer, atLevel, fcut, fappend, addNode, Except.map] at v3a ⊢
+    simp [v3a]
+  · simp [Schema.apply, Schema.fromReplace, Schema.replace, n0, nb, q, replaceKids, inRange,
+      depthAt, Slice.wf, spineL, spineR, outer, atLevel, fcut, fappend, addNode, Except.map] at v3b ⊢
+    simp [v3b]
+  · have := r.1
+    simpa [Slice.size, q] using this
+  · simp [Schema.apply, Schema.fromReplace, Schema.replace, na, q, replaceKids, inRange,
+      depthAt, Slice.wf, spineL, spineR, outer, atLevel, fcut, fappend, addNode, Except.map] at v4a ⊢
+    simp [v4a]
+  · simp [Schema.apply, Schema.fromReplace, Schema.replace, nb, q, replaceKids, inRange,
+      Slice.wf, spineL, spineR, outer, atLevel, fcut, fappend, addNode, Except.map] at v4a ⊢
+    simp [v4a]
+  · simp [n0, q, Node.kids, insideLeft]
+end NeedsGuard
+
 end PM.C17
